@@ -98,6 +98,9 @@ def argn_family(rng, n):
         # stopped reserving the whole family the counter had just been moved into)
         near, big = "arg_" + "9" * (lim - 1), "arg_1" + "0" * (lim - 2) + "1"
         out.append(f"Select(Select(ds, lambda {near}: {near}), lambda x: Select(x.jets, lambda {big}: {big}.pt + x.met))")
+        # ... and the last but one number of the limit length (wave-15 review of 6d2d5ea: the counter was moved to the last
+        # one, and the second name drawn could not be written - in this and in every later query of the process)
+        out.append(f"Select(Select(ds, lambda e: e.met + arg_{'9' * (lim - 1)}8), lambda x: x + 1)")
     tries = 0
     while len(out) < n and tries < 20 * n:
         tries += 1
